@@ -139,6 +139,16 @@ def check_c17(ctx):
     bounds = {"MAXRAW": 4, "MAXGUIDED": 5, "MAXPLAIN": 6, "MAXCHARS": 4} if q else \
              {"MAXRAW": 5, "MAXGUIDED": 6, "MAXPLAIN": 8, "MAXCHARS": 4}
     ctx.cov["constants"]["Gen_Syntax"] = dict(bounds, MaxDev=1)
+    ctx.cov["rule"] = ("cases = (a) every token string over {K1,K0,KX,KE,(,),!,&&,||,',',S,B,I,J} up to MaxRaw tokens, "
+                       "(b) grammar-directed token strings with one arbitrary inserted/substituted token up to MaxGuided and "
+                       "without deviation up to MaxPlain, each with the verdict ok|error of Layer P (TLC also checks the "
+                       "rewriting model of the code's pipeline against it on every string); (c) every character string over a "
+                       "15-symbol byte alphabet up to MaxChars plus VERIF_SEED-seeded TLC simulations of longer ones, in several "
+                       "contexts (verdict: any, never panic/hang); (d) every primitive x every argument-type vector of length "
+                       "0..4 and, for the documented types, every combination of value classes (IP, regexp, hash range, time, "
+                       "time-of-day) with verdict ok|error|gray. Each is rendered (canonical + seeded variants) and passed to "
+                       "condition.Build under recover + watchdog; built conditions are also Matched once. "
+                       "distinct = distinct abstract inputs.")
     jobs = [("GenCondSyntax", "Gen_Syntax.cfg",
              dict(bounds, MODES='"raw","guided","plain","chars"', INV="MSatisfiesP"), {"workers": vlib.NCPU})]
     # seeded random character strings beyond the exhaustive bound (TLC -simulate; the printing invariant is
